@@ -10,7 +10,7 @@
 // writes several storage paths that contain each other; there the statement's read-after-write clause is also
 // checked per covered leaf request, without the reference.
 // Part 2 (transactions): two real Transactions over one stored bag, every interleaving of their
-// view operations and commits.
+// view operations and commits; in a second family one of them is used on after its own commit.
 package registrystate
 
 import (
@@ -1466,59 +1466,145 @@ func TestVerifC30(t *testing.T) {
 			}
 		}
 	}
-	var txEvals, txNontriv int64
+	// a programme is what one transaction does, in its order: operations and commits (nil)
+	type txProg []*op
+	progOf := func(segments ...[]op) txProg {
+		var p txProg
+		for _, seg := range segments {
+			for i := range seg {
+				p = append(p, &seg[i])
+			}
+			p = append(p, nil) // every segment ends in a commit
+		}
+		return p
+	}
+	type txItem struct {
+		progs [2]txProg
+		reuse bool
+	}
+	var items []txItem
+	// family (b), reuse (first: it is the small one): one transaction is used on after its own commit - two segments of <= 1 operation, each
+	// ended by a commit ([C C] [a C C] [C b C] [a C b C]) - while the other one does <= 1 operation and commits;
+	// both role assignments. The reference is the same: a successful commit empties the pending writes of the
+	// transaction and moves its snapshot to what it stored.
+	var shortLists [2][][]op
+	for tx := 0; tx < 2; tx++ {
+		for _, l := range lists[tx] {
+			if len(l) <= 1 {
+				shortLists[tx] = append(shortLists[tx], l)
+			}
+		}
+	}
+	for reused := 0; reused < 2; reused++ {
+		for _, s1 := range shortLists[reused] {
+			for _, s2 := range shortLists[reused] {
+				for _, lo := range shortLists[1-reused] {
+					var it txItem
+					it.reuse = true
+					it.progs[reused] = progOf(s1, s2)
+					it.progs[1-reused] = progOf(lo)
+					items = append(items, it)
+				}
+			}
+		}
+	}
+	// family (a): every transaction commits once, after <= maxOps operations. One work item per pair of
+	// operation lists (the items differ a lot in size)
+	for _, l0 := range lists[0] {
+		for _, l1 := range lists[1] {
+			items = append(items, txItem{progs: [2]txProg{progOf(l0), progOf(l1)}})
+		}
+	}
+	var txEvals, txNontriv, txReuse, txReuseBetween int64
 	tTx := time.Now()
 	starts := []string{"{}", canon(norm(json.RawMessage(populated)))}
-	// one work item per pair of operation lists (the items differ a lot in size)
-	eng.ParallelFor(len(lists[0])*len(lists[1]), func(i int) {
-		l0 := lists[0][i/len(lists[1])]
+	eng.ParallelFor(len(items), func(i int) {
+		it := items[i]
 		if skipPart(r, "tx") {
 			return
 		}
-		var ev, nt int64
+		var ev, nt, ru, rb int64
 		if earlyStop(r) {
 			return
 		}
 		if r.TimeUp() {
-			r.Cap("time_transactions", "not all pairs of operation lists were interleaved")
+			r.Cap("time_transactions", "not all pairs of transaction programmes were interleaved")
 			return
 		}
-		for _, l1 := range lists[1][i%len(lists[1]) : i%len(lists[1])+1] {
-			for _, il := range interleavings(len(l0)+1, len(l1)+1) {
-				for _, start := range starts {
-					c := txCase{Part: "tx", Start: start}
-					idx := [2]int{}
-					lsts := [2][]op{l0, l1}
-					for _, who := range il {
-						if idx[who] < len(lsts[who]) {
-							o := lsts[who][idx[who]]
-							c.Steps = append(c.Steps, txStep{Tx: who, Op: &o})
-						} else {
-							c.Steps = append(c.Steps, txStep{Tx: who})
+		writes := func(p txProg) (n int) {
+			for _, o := range p {
+				if o != nil {
+					n++
+				}
+			}
+			return n
+		}
+		for _, il := range interleavings(len(it.progs[0]), len(it.progs[1])) {
+			// between: a transaction writes after its own commit and the other one commits a write in between
+			// that commit and the next one of the first (the schedule on which writes that were already
+			// committed must not be applied a second time)
+			between := false
+			if it.reuse {
+				var commits, opsSinceCommit [2]int
+				var otherWroteSince [2]bool // [i]: the other transaction committed a write since i's last commit
+				idx := [2]int{}
+				for _, who := range il {
+					if it.progs[who][idx[who]] != nil {
+						opsSinceCommit[who]++
+					} else {
+						if commits[who] > 0 && opsSinceCommit[who] > 0 && otherWroteSince[who] {
+							between = true
 						}
-						idx[who]++
+						if opsSinceCommit[who] > 0 {
+							otherWroteSince[1-who] = true
+						}
+						otherWroteSince[who] = false
+						commits[who]++
+						opsSinceCommit[who] = 0
 					}
-					ev++
-					if len(l0) > 0 && len(l1) > 0 {
+					idx[who]++
+				}
+			}
+			for _, start := range starts {
+				c := txCase{Part: "tx", Start: start}
+				idx := [2]int{}
+				for _, who := range il {
+					c.Steps = append(c.Steps, txStep{Tx: who, Op: it.progs[who][idx[who]]})
+					idx[who]++
+				}
+				ev++
+				if it.reuse {
+					ru++
+					if between {
+						rb++
 						nt++
 					}
-					for _, v := range runTxCase(view, c) {
-						r.Violation(v.key, v.msg, c)
-					}
+				} else if writes(it.progs[0]) > 0 && writes(it.progs[1]) > 0 {
+					nt++
+				}
+				for _, v := range runTxCase(view, c) {
+					r.Violation(v.key, v.msg, c)
 				}
 			}
 		}
 		atomic.AddInt64(&txEvals, ev)
 		atomic.AddInt64(&txNontriv, nt)
+		atomic.AddInt64(&txReuse, ru)
+		atomic.AddInt64(&txReuseBetween, rb)
 	})
+	if !earlyStop(r) && !skipPart(r, "tx") && !r.TimeUp() && txReuseBetween < 2 {
+		eng.HarnessError("transaction reuse family is vacuous: %d interleavings, %d with a foreign commit between two commits of one transaction", txReuse, txReuseBetween)
+	}
 	r.Info("wall_s_transactions", int(time.Since(tTx).Seconds()))
 	r.Add("transaction_interleavings", txEvals)
+	r.Add("transaction_reuse_interleavings", txReuse)
+	r.Add("transaction_reuse_foreign_commit_between_own_commits", txReuseBetween)
 	r.Add("evaluations", evals+txEvals)
 	r.Add("distinct_nontrivial", nontriv+txNontriv)
 	r.Add("states", states)
 	r.Add("transitions", transitions+txEvals)
 	r.Add("traces_validated_against_impl", transitions+txEvals)
-	r.Info("bounds", map[string]interface{}{"views": len(views), "nest_views": len(nViews), "operations": len(ops), "nest_operations_max": nestC.maxOps, "depth": depth, "initial_bags": 2, "tx_op_lists_per_transaction": len(lists[0]), "tx_max_ops": maxOps})
+	r.Info("bounds", map[string]interface{}{"views": len(views), "nest_views": len(nViews), "operations": len(ops), "nest_operations_max": nestC.maxOps, "depth": depth, "initial_bags": 2, "tx_op_lists_per_transaction": len(lists[0]), "tx_max_ops": maxOps, "tx_programme_pairs": len(items), "tx_reuse_segments": 2, "tx_reuse_max_ops_per_segment": 1})
 	r.Sample(txCase{Part: "tx", Start: "{}", Steps: []txStep{{Tx: 0, Op: &op{Kind: "set", Req: "lit", Val: 11}}, {Tx: 1, Op: &op{Kind: "set", Req: "top.one", Val: 22}}, {Tx: 1}, {Tx: 0}}})
-	r.Finish("views: every view of the main family and of the nest family (2-3 rules under one request prefix, every injective assignment to nested/sibling/unrelated storage paths, placeholder next to literal) x breadth-first over stored-bag states (dedup on the canonical JSON of the bag) from an empty and a populated bag, every operation of the alphabet in every state up to the depth; each operation runs directly on a recording bag and through Transaction+Commit and is compared with the reference (result, error class, touched storage paths, changed data, unchanged bag on rejection, read after write of the request and of every rule instance the Set covers; independently of the reference: Get of every covered leaf request returns exactly the part of the value written for it). transactions: every pair of operation lists (<= tx_max_ops each) x every interleaving of operations and commits x 2 initial bags. distinct_nontrivial = writes matching rules of mixed access or rejected on a non-empty bag, plus interleavings where both transactions write")
+	r.Finish("views: every view of the main family and of the nest family (2-3 rules under one request prefix, every injective assignment to nested/sibling/unrelated storage paths, placeholder next to literal) x breadth-first over stored-bag states (dedup on the canonical JSON of the bag) from an empty and a populated bag, every operation of the alphabet in every state up to the depth; each operation runs directly on a recording bag and through Transaction+Commit and is compared with the reference (result, error class, touched storage paths, changed data, unchanged bag on rejection, read after write of the request and of every rule instance the Set covers; independently of the reference: Get of every covered leaf request returns exactly the part of the value written for it). transactions: every pair of operation lists (<= tx_max_ops each, one commit each) x every interleaving of operations and commits x 2 initial bags; reuse: one transaction runs two segments of <= 1 operation each ended by a commit (it is used on after its own commit), the other <= 1 operation and a commit, both role assignments x every interleaving x 2 initial bags. distinct_nontrivial = writes matching rules of mixed access or rejected on a non-empty bag, plus interleavings where both transactions write, plus reuse interleavings where a transaction writes after its own commit and the other one commits a write between that commit and its next one")
 }
